@@ -94,6 +94,8 @@ def run(ctx):
                           fingerprint={"corr": "capq"}, found_input=False)
         if compiled:
             capq_cmp += 1
+        if kv.get("qempty") == "true":
+            dist["quantified_pattern_with_model_matches_but_no_real_match"] = dist.get("quantified_pattern_with_model_matches_but_no_real_match", 0) + 1
         if kv["judge"] == "ok" or kv["judge"].startswith("ok "):
             continue
         judge_bad += 1
